@@ -191,12 +191,14 @@ def run(ctx, chk):
                 for e2 in q.effects:
                     if e2['kind'] == 'call' and not e2['tracing'] and any(a == cx for a in e2['args']):
                         wk = e2['callee']
+                        wk_args = list(e2['args'])
         wb = fb.body(wk) if wk else None
         by_value = wb is not None and any(wb.crate.tystr(wb.locals[i]['ty']) == ctx_ty for i in range(1, wb.argc + 1))
         chk.ob('C15.N2', 'spawn:context-moved-to-worker:%s' % cid, by_value, where,
                'closure passes its Context by value to %s' % wk)
         if wb is not None:
             workers[cid] = wb
+            WORKER_ENTRY[cid] = (wb, wk_args)
     chk.floor('C15.N2', 'spawned workers', len(workers), 2)
     # what each worker is: follow the Context to the loop that finally owns it
     loops = {}
@@ -272,6 +274,14 @@ def run(ctx, chk):
         chk.ob('C15.N3', 'manager:%s' % cls, got is not None and all(r[0] == 'broadcast' and r[1] == 'leave' for r in got), tmb.where(0),
                'on %s the manager does %s (must broadcast ThreadAbort and leave the loop)' % (cls, sorted(got) if got else 'nothing: no such row'))
     n_joined, n_handles = joined_handles(fb, tmb)
+    if n_handles == 0:
+        # the manager proper may be a private function the public entry point hands its parameters to
+        for _, _, fn_ in common.user_calls(tmb):
+            nb_ = fb.body(mir.callee_name(fn_)) if fn_ else None
+            if nb_ is not None and nb_.defkind != 'Closure' and nb_.crate.name == common.DAEMON and common.reaches_call(fb, nb_, common.is_thread_spawn):
+                j_, h_ = joined_handles(fb, nb_)
+                if h_ > n_handles:
+                    n_joined, n_handles = j_, h_
     chk.ob('C15.N3', 'manager:joins-all-handles', n_joined == n_handles and n_handles >= 2 and joins_in_a_loop(fb, tmb), tmb.where(0),
            '%d thread handle(s) obtained, %d flow into a join; joined in a loop after the manager loop: %s' % (n_handles, n_joined, joins_in_a_loop(fb, tmb)))
     chk.tables['manager'] = {str(k): sorted(v) for k, v in rows.items()}
@@ -547,20 +557,54 @@ def common_variant_names(fb, suffix):
     return {}
 
 
+_CARRIER = {}
+
+
+def carries_context(fb, crate, tystr, depth=0):
+    """is this type the Context, or a workspace struct (a per-thread state struct, a builder) that owns one by value?"""
+    ctx_ty = common.context_type(fb)
+    base = tystr.split('<')[0]
+    if tystr == ctx_ty:
+        return True
+    key = (id(fb), base)
+    if key in _CARRIER:
+        return _CARRIER[key]
+    _CARRIER[key] = False
+    res = False
+    if depth < 3 and base.startswith(common.DAEMON + '::'):
+        for c_ in fb.crates:
+            for k_, a_ in c_.adts.items():
+                if k_.split('<')[0] != base or a_.get('kind') != 'struct' or not a_.get('variants'):
+                    continue
+                for f_ in a_['variants'][0]['fields']:
+                    if 'ty' in f_ and carries_context(fb, c_, c_.types[f_['ty']]['s'], depth + 1):
+                        res = True
+    _CARRIER[key] = res
+    return res
+
+
 def final_holder(fb, wb, depth=0):
-    """follow a by-value Context argument through worker entry points to the function that
-    keeps it until it returns"""
-    if depth > 4:
+    """follow a by-value Context argument through worker entry points to the function that keeps it until it returns;
+    the Context may travel inside a struct built around it (a builder, a per-thread state struct): a call that takes the
+    carrier by value and gives a carrier back is a construction step, one that does not give it back owns it from then on"""
+    if depth > 5:
         return wb
+    last = None
     for bb, t, fn in common.user_calls(wb):
         nm = mir.callee_name(fn) if fn else None
         nb = fb.body(nm) if nm else None
-        if nb is None or nb.argc < 1:
+        if nb is None or nb.argc < 1 or nb.defkind == 'Closure':
             continue
         for i, a in enumerate(t['args']):
-            if a.get('k') == 'move' and not a['p']['proj'] and wb.crate.tystr(wb.locals[a['p']['l']]['ty']) == common.context_type(fb) \
-                    and nb.crate.tystr(nb.locals[i + 1]['ty']) == common.context_type(fb):
-                return final_holder(fb, nb, depth + 1)
+            if i + 1 > nb.argc or a.get('k') != 'move' or a['p']['proj']:
+                continue
+            if carries_context(fb, wb.crate, wb.crate.tystr(wb.locals[a['p']['l']]['ty'])) and \
+                    carries_context(fb, nb.crate, nb.crate.tystr(nb.locals[i + 1]['ty'])):
+                returns_carrier = carries_context(fb, nb.crate, nb.crate.tystr(nb.locals[0]['ty']))
+                if not returns_carrier:
+                    last = nb
+    if last is not None:
+        return final_holder(fb, last, depth + 1)
     return wb
 
 
@@ -592,6 +636,10 @@ def context_dropped_on_all_exits(b, ctx_local=None, depth=0):
         for i in range(1, b.argc + 1):
             if b.crate.tystr(b.locals[i]['ty']) == _CTX[0]:
                 ctx_local = i
+    if ctx_local is None and _FB[0] is not None:
+        for i in range(1, b.argc + 1):
+            if carries_context(_FB[0], b.crate, b.crate.tystr(b.locals[i]['ty'])):
+                ctx_local = i          # (a per-thread struct that owns the Context: dropping it drops the Context)
     if ctx_local is None:
         return False, 'no by-value Context parameter'
     # the value may travel through temporaries (`_5 = move _1; call f(move _5)`)
@@ -885,11 +933,82 @@ def abort_and_blocking(fb, chk, cid, holder, msgs):
             chk.ob('C15.N6', 'blocking:%s:%s' % (cid, short), own, site, '%s on %s' % (short, fmt(ef['args'][0])[:40]))
             if short == 'recv_timeout':
                 d = timeout_value(fb, holder, ef['args'][1])
+                if d is None:
+                    d = entry_timeout_bound(fb, cid)       # an upper bound will do: seen from the thread's entry point
                 chk.ob('C15.N6', 'blocking:%s:timeout-bounded' % cid, d is not None and 0 < d <= MAX_WAIT_NS, site,
                        'poll wait is %s ns (must be a constant <= %d ns so ThreadAbort is seen within a few seconds)' % (d, MAX_WAIT_NS))
         elif any(x in nm for x in BLOCKING_DENY):
             chk.ob('C15.N6', 'blocking:%s:%s' % (cid, short), False, site, '%s can block the worker loop indefinitely' % nm)
     chk.analysed['call_sites'] += len(ext)
+
+
+WORKER_ENTRY = {}       # channel id -> (worker entry body, the argument values the spawned closure passes it, in the manager's terms)
+
+
+def _ub_int(v, depth=0):
+    """an upper bound of an integer term: a constant, `x.clamp(lo, hi)` / `min(a, b)` with a constant bound, through casts"""
+    if depth > 6 or not isinstance(v, tuple):
+        return None
+    if psi.is_int_const(v):
+        return v[1]
+    if v[0] == 't' and v[1] in ('cast', 'conv'):
+        return _ub_int(v[2][0], depth + 1)
+    if v[0] == 't' and v[1] == 'call':
+        last = v[2][0].split('::')[-1]
+        args = [a for a in v[2][2:]]
+        if last == 'clamp' and len(args) == 3:
+            return _ub_int(args[2], depth + 1)
+        if last == 'min' and len(args) == 2:
+            bs = [b for b in (_ub_int(args[0], depth + 1), _ub_int(args[1], depth + 1)) if b is not None]
+            return min(bs) if bs else None
+    return None
+
+
+def _ub_ns(v, depth=0):
+    l = common.lin_time(v)
+    if l is not None and not l.terms:
+        return l.const
+    if v[0] == 't' and v[1] == 'call' and depth < 4:
+        last = v[2][0].split('::')[-1]
+        args = list(v[2][2:])
+        if last == 'clamp' and len(args) == 3:
+            return _ub_ns(args[2], depth + 1)            # Duration::clamp(lo, hi)
+        if last == 'min' and len(args) == 2:
+            bs = [b for b in (_ub_ns(args[0], depth + 1), _ub_ns(args[1], depth + 1)) if b is not None]
+            return min(bs) if bs else None
+    if v[0] == 't' and v[1] in ('dur_from_millis', 'dur_from_secs', 'dur_from_micros', 'dur_from_nanos'):
+        b = _ub_int(v[2][0])
+        k = {'dur_from_millis': 10**6, 'dur_from_secs': 10**9, 'dur_from_micros': 10**3, 'dur_from_nanos': 1}[v[1]]
+        return None if b is None else b * k
+    return None
+
+
+def entry_timeout_bound(fb, cid):
+    """upper bound (ns) of every mailbox wait of the worker thread `cid`, with the thread explored from its entry point and
+    the arguments the manager's closure passes (so that a period kept in a per-thread struct, set by a builder, or clamped by
+    the manager before it is handed over is seen with its value or its bound); None when some wait has no bound"""
+    ent = WORKER_ENTRY.get(cid)
+    if ent is None:
+        return None
+    wb, args = ent
+    args = [(('ref', (('S', ('sym', 'caller-place-%d' % i)), ())) if (a is not None and a[0] == 'ref' and a[1][0][0] == 'L') else a)
+            for i, a in enumerate(args)]
+    from . import poller_model as _pm
+    try:
+        eng = common.mk_engine(fb, inline_depth=8, no_inline=lambda b: bool(b.impl_trait or b.provided_of) and b.name in (_pm.QUERY_METHODS | _pm.GRACE_METHODS))
+        paths = eng.run(wb, args=args)
+    except psi.PathLimit:
+        return None
+    worst, n = 0, 0
+    for p in paths:
+        for ef in p.effects:
+            if ef['kind'] == 'call' and not ef['tracing'] and ef['callee'].endswith('Receiver::<T>::recv_timeout') and len(ef['args']) > 1:
+                n += 1
+                b = _ub_ns(ef['args'][1])
+                if b is None:
+                    return None
+                worst = max(worst, b)
+    return worst if n else None
 
 
 def timeout_value(fb, holder, v):
